@@ -9,6 +9,7 @@ use world::monitors::c01_commit::CommitMonitor;
 use world::monitors::c05_revoke::RevokeMonitor;
 use world::monitors::c09_order::OrderMonitor;
 use world::monitors::c10_restart::RestartMonitor;
+use world::monitors::pay::PayMonitor;
 use world::monitors::Monitor;
 use world::run::{run_one, Crash, Profile};
 
@@ -22,7 +23,7 @@ fn main() {
 		prof.steps = s.parse().unwrap();
 	}
 	let runs = args.num("runs", 160, 8000);
-	let make = || -> Vec<Box<dyn Monitor>> { vec![Box::new(CommitMonitor::new()), Box::new(RevokeMonitor::new()), Box::new(OrderMonitor::new()), Box::new(RestartMonitor::new())] };
+	let make = || -> Vec<Box<dyn Monitor>> { vec![Box::new(CommitMonitor::new()), Box::new(RevokeMonitor::new()), Box::new(OrderMonitor::new()), Box::new(RestartMonitor::new()), Box::new(PayMonitor::new())] };
 	let only: Option<u64> = args.kv.get("only_run").map(|s| s.parse().unwrap());
 	let mode = args.kv.get("mode").cloned().unwrap_or_else(|| "random".to_string());
 	let mut i = args.shard;
